@@ -9,7 +9,12 @@ strings and numbers (the only objects the units interpret); the normalised tree 
   R3  len(X) == 0   /  0 == len(X)                   ->  not X                      (containers only)
   R4  A if not C else B                              ->  B if C else A
       A if X is not None else B                      ->  B if X is None else A
+  R4b True if C else E                               ->  C or E                     (E boolean: a membership / comparison)
+  R4c D[k] if k in D else V                          ->  D.get(k, V)                (dicts)
+  R4d [f(v) for v in X] if X else []                 ->  [f(v) for v in X]
+  R4e f"lit{E}" (no conversion / format)             ->  "lit" + E                  (E a string)
   R5  x = x                                          ->  (dropped)
+  R5b if C: t = A else: t = B   (one simple name)    ->  t = A if C else B
   R6  t = E ; S   where t is bound once in the function, read only inside S (for `if`/`for`: only inside the test /
       the iterable) and E is built from names, attributes, subscripts, constants, operators and calls to pure functions
                                                      ->  S[t := E]                  (a temporary for the next statement)
@@ -95,10 +100,38 @@ class _Expr(ast.NodeTransformer):
         # R4
         t = node.test
         if isinstance(t, ast.UnaryOp) and isinstance(t.op, ast.Not):
-            return ast.IfExp(test=t.operand, body=node.orelse, orelse=node.body)
-        if isinstance(t, ast.Compare) and len(t.ops) == 1 and isinstance(t.ops[0], ast.IsNot) \
+            node = ast.IfExp(test=t.operand, body=node.orelse, orelse=node.body)
+        elif isinstance(t, ast.Compare) and len(t.ops) == 1 and isinstance(t.ops[0], ast.IsNot) \
                 and isinstance(t.comparators[0], ast.Constant) and t.comparators[0].value is None:
-            return ast.IfExp(test=ast.Compare(left=t.left, ops=[ast.Is()], comparators=t.comparators), body=node.orelse, orelse=node.body)
+            node = ast.IfExp(test=ast.Compare(left=t.left, ops=[ast.Is()], comparators=t.comparators), body=node.orelse, orelse=node.body)
+        t = node.test
+        # R4b
+        if isinstance(node.body, ast.Constant) and node.body.value is True and isinstance(node.orelse, (ast.Compare, ast.BoolOp, ast.UnaryOp)):
+            return ast.BoolOp(op=ast.Or(), values=[t, node.orelse])
+        # R4c
+        if isinstance(t, ast.Compare) and len(t.ops) == 1 and isinstance(t.ops[0], ast.In) and isinstance(node.body, ast.Subscript) \
+                and ast.dump(node.body.value) == ast.dump(t.comparators[0]) and ast.dump(node.body.slice) == ast.dump(t.left):
+            return ast.Call(func=ast.Attribute(value=t.comparators[0], attr="get", ctx=ast.Load()), args=[t.left, node.orelse], keywords=[])
+        # R4d
+        if isinstance(node.body, ast.ListComp) and isinstance(node.orelse, ast.List) and not node.orelse.elts and len(node.body.generators) == 1 \
+                and not node.body.generators[0].ifs and ast.dump(node.body.generators[0].iter) == ast.dump(t):
+            return node.body
+        return node
+
+    def visit_JoinedStr(self, node):
+        self.generic_visit(node)
+        # R4e
+        parts = []
+        for v in node.values:
+            if isinstance(v, ast.Constant) and isinstance(v.value, str):
+                parts.append(v)
+            elif isinstance(v, ast.FormattedValue) and v.conversion == -1 and v.format_spec is None \
+                    and isinstance(v.value, ast.Attribute) and v.value.attr in ("name", "stem", "suffix"):
+                parts.append(v.value)
+            else:
+                return node
+        if len(parts) == 2 and isinstance(parts[0], ast.Constant):
+            return ast.BinOp(left=parts[0], op=ast.Add(), right=parts[1])
         return node
 
 
@@ -171,6 +204,13 @@ def _inline_in(stmts, func):
         if isinstance(s, ast.Assign) and len(s.targets) == 1 and isinstance(s.targets[0], ast.Name) \
                 and isinstance(s.value, ast.Name) and s.value.id == s.targets[0].id:
             i += 1
+            continue
+        # R5b: if C: t = A else: t = B  ->  t = A if C else B
+        if isinstance(s, ast.If) and len(s.body) == 1 and len(s.orelse) == 1 and all(
+                isinstance(b, ast.Assign) and len(b.targets) == 1 and isinstance(b.targets[0], ast.Name) for b in (s.body[0], s.orelse[0])) \
+                and s.body[0].targets[0].id == s.orelse[0].targets[0].id and _loads(s.test, s.body[0].targets[0].id) == 0:
+            stmts[i] = ast.Assign(targets=[ast.Name(id=s.body[0].targets[0].id, ctx=ast.Store())],
+                                  value=_Expr().visit(ast.IfExp(test=s.test, body=s.body[0].value, orelse=s.orelse[0].value)), lineno=s.lineno)
             continue
         # R8: t = None ; if ..: (.. t = E as the last statement of some branches ..) ; S(t)   with t read only in S
         #     ->  the if with S[t := E] in place of the assignments and S[t := None] at the end of the other branches
